@@ -102,7 +102,7 @@ def r02_2(ctx):
     for body in ctx.facts.bodies(prefix="transports::dtls::"):
         if "::tests::" in body.name:
             continue
-        ws = core.field_writes(body, lambda f: f in ("session_keys", "session_crypto"))
+        ws = core.field_writes(body, lambda f: f in ("session_keys", "session_crypto"), deep=True)
         if not ws:
             continue
         if body.name not in allowed:
@@ -140,7 +140,7 @@ def r02_3(ctx):
     for body in ctx.facts.bodies(prefix="transports::dtls::"):
         if "::tests::" in body.name:
             continue
-        ws = [w for w in core.field_writes(body, lambda f: f == "server_key_exchange_verified")]
+        ws = [w for w in core.field_writes(body, lambda f: f == "server_key_exchange_verified", deep=True)]
         ws = [w for w in ws if w[1] is not None and body.term_rvalue(w[2]["rv"]) != ("const", 0, "false")]
         ws = [w for w in ws if not (body.term_rvalue(w[2]["rv"])[0] == "const" and body.term_rvalue(w[2]["rv"])[1] == 0)]
         if not ws:
@@ -167,7 +167,7 @@ def r02_3(ctx):
             else:
                 r.violate(body.name, "write:server_key_exchange_verified", body.where(bi, si), "flag set without the signature check succeeding")
         # the public key adopted is the one of the verified message
-        for bi, si, s in core.field_writes(body, lambda f: f == "peer_public_key"):
+        for bi, si, s in core.field_writes(body, lambda f: f == "peer_public_key", deep=True):
             v = body.term_rvalue(s["rv"]) if si is not None else None
             same = v is not None and ske_terms and any(mir.has(v, lambda x, k=k: x == k) for k in ske_terms)
             cut = g and core.k1(body, [bi], g)[bi] is None
@@ -185,8 +185,9 @@ def r02_4(ctx):
     for body in ctx.facts.bodies(prefix="transports::dtls::"):
         if "::tests::" in body.name:
             continue
-        ws = [w for w in core.field_writes(body, lambda f: f == "peer_certificate") if w[1] is not None]
-        ws = [w for w in ws if body.term_rvalue(w[2]["rv"])[0] == "agg" and body.term_rvalue(w[2]["rv"])[2] == "Some"]
+        ws = [w for w in core.field_writes(body, lambda f: f == "peer_certificate", deep=True) if w[1] is not None]
+        ws = [w for w in ws if (body.term_rvalue(w[2]["rv"])[0] == "agg" and body.term_rvalue(w[2]["rv"])[2] == "Some")
+              or body.term_rvalue(w[2]["rv"])[0] == "unknown"]
         if not ws:
             continue
         if body.name != CERT:
@@ -196,7 +197,12 @@ def r02_4(ctx):
         r.scope.append(body.name)
         for bi, si, s in ws:
             n += 1
-            stored = body.term_rvalue(s["rv"])[3][0]
+            rvt = body.term_rvalue(s["rv"])
+            if rvt[0] == "unknown":
+                r.violate(body.name, "mutborrow:peer_certificate", body.where(bi, si),
+                          "peer_certificate handed out mutably: the stored certificate can be replaced without the digest check")
+                continue
+            stored = rvt[3][0]
 
             def match(term, meaning, *_, stored=stored):
                 if term[0] == "discr" and (mir.field_path(term[1]) or "").endswith("expected_remote_fingerprint") and meaning == "None":
@@ -391,7 +397,7 @@ def r02_8(ctx):
         body = ctx.body(name)
         r.scope.append(name)
         g = core.guard_edges(body, cert_checked) + _role_edges(body, False)
-        for bi, si, s in core.field_writes(body, lambda f: f == "session_keys"):
+        for bi, si, s in core.field_writes(body, lambda f: f == "session_keys", deep=True):
             p = core.k1(body, [bi], g)[bi]
             if p is None:
                 r.ok({"site": body.where(bi, si)})
